@@ -727,8 +727,15 @@ func main() {
 	outFn := flag.String("out-fn", "", "fourth output Lean file: decision expressions translated into Lean functions (PV.FactsFn); not written when empty")
 	outAst := flag.String("out-ast", "", "third output Lean file: source text of the node/list primitives (PV.FactsAst); not written when empty")
 	outProg := flag.String("out-prog", "", "fifth output Lean file: whole functions translated statement by statement (PV.FactsProg); not written when empty")
+	outCore := flag.String("out-core", "", "sixth output Lean file: the parser core translated statement by statement (PV.FactsCore); not written when empty")
 	flag.StringVar(&repo, "repo", "/repo", "repository root")
 	flag.Parse()
+	if *outCore != "" {
+		if err := writeCoreFacts(*outCore); err != nil {
+			fmt.Fprintln(os.Stderr, err)
+			os.Exit(1)
+		}
+	}
 	if *outProg != "" {
 		if err := writeProgFacts(*outProg); err != nil {
 			fmt.Fprintln(os.Stderr, err)
@@ -777,6 +784,27 @@ func main() {
 	// a restructured function can make an extraction site match more than once: the generated file must still be
 	// well-formed Lean (the model driver imports it), so a repeated name is emitted under a suffixed name and reported
 	// as an extraction problem (which the property theorems pin to the empty list)
+	// the six constants the MODEL itself is written over must always be defined, or neither the model nor its driver
+	// compiles and no correspondence run can look for a failing input: when the extractor did not find one (the code it
+	// reads was restructured) the pinned value is emitted under the name and the extraction problem is recorded - the
+	// check reports it for every property whose proofs mention the constant
+	have := map[string]bool{}
+	for _, f := range facts {
+		have[f.name] = true
+	}
+	for _, d := range []fact{
+		{"curtailSlack", "Nat", "1", "FALLBACK (not found in the current source)"},
+		{"fileSetFirstPos", "Nat", "1", "FALLBACK (not found in the current source)"},
+		{"fileSetGap", "Nat", "1", "FALLBACK (not found in the current source)"},
+		{"newFileOffset", "Nat", "1", "FALLBACK (not found in the current source)"},
+		{"wsBytes", "List Nat", "[32, 9, 10, 12]", "FALLBACK (not found in the current source)"},
+		{"wsBreakBytes", "List Nat", "[10, 12]", "FALLBACK (not found in the current source)"},
+	} {
+		if !have[d.name] {
+			facts = append(facts, d)
+			problems = append(problems, fmt.Sprintf("fact %s extracted 0 times (fallback value emitted so that the model compiles)", d.name))
+		}
+	}
 	seen := map[string]int{}
 	for _, f := range facts {
 		name := f.name
